@@ -268,5 +268,33 @@ example : ∀ r s', s1.processPacket a addrA respBad = .ok (r, s') → ∀ id ad
 example : ∀ r s', s1.processPacket a addrB respA = .ok (r, s') → ∀ id ad ud ka, r ≠ .clientConnected id ad ud ka :=
   fun r s' h => no_pending_no_connection inv_s1 h (by decide +kernel)
 
+example : ∃ buf, Op.packet addrA respA = .packet addrA buf ∧
+    s1.processPacket a addrA buf = .ok (.clientConnected 11 addrA udA kaA, s2) := connected_is_packet inv_s1 s_response
+
+/-- the exact errors: A's token at the expiry second; for protocol 43; with a broken tag -/
+example : NetcodeServer.handleConnectionRequest a sLate addrA Netcode.C.NETCODE_VERSION_INFO sLate.protocolId 30 xnA
+    privDataA = .err (.expired, sLate) := expired_error (by decide)
+example : NetcodeServer.handleConnectionRequest a sPid addrA Netcode.C.NETCODE_VERSION_INFO 42 30 xnA privDataA =
+    .err (.invalidProtocolID, sPid) := protocol_error (by decide)
+example : NetcodeServer.handleConnectionRequest a s0 addrA Netcode.C.NETCODE_VERSION_INFO s0.protocolId 30 xnA
+    privDataT = .err (.tokenGenerationError .cryptoError, s0) :=
+  crypto_error (by decide) (by decide +kernel) (by decide +kernel)
+
+/-- a full (3-entry) token table: accepting a token with a new MAC overwrites an entry, after which the overwritten
+    token's MAC is accepted from any address -/
+example : ∃ (k : Nat) (e_old : ConnectTokenEntry), sFull.connectTokenEntries[k]? = some (some e_old) ∧
+    ∀ addr', ((sFull.findOrAddConnectTokenEntry ⟨4, addrA, List.replicate 15 0 ++ [35]⟩).1.findOrAddConnectTokenEntry
+      ⟨sFull.currentTime, addr', e_old.mac⟩).2 = true := by
+  obtain ⟨k, e_old, h1, _, _, h4⟩ := binding_lost_when_full sFull_inv (ne := ⟨4, addrA, List.replicate 15 0 ++ [35]⟩)
+    (by
+      intro e he
+      simp only [sFull, List.mem_cons, Option.some.injEq, List.not_mem_nil, or_false] at he
+      rcases he with rfl | rfl | rfl <;> decide)
+    (by
+      intro x hx
+      simp only [sFull, List.mem_cons, List.not_mem_nil, or_false] at hx
+      rcases hx with rfl | rfl | rfl <;> simp)
+  exact ⟨k, e_old, h1, h4⟩
+
 end Examples
 end RenetVerif.C05
